@@ -123,16 +123,16 @@ Print Assumptions C11_roundtrip_tables_partial.
 (* writable through the facade (single request = element of a non-atomic bulk): the first committed write on the
    still-initializing copy flips it to in-use; its log id is max(stored log ids) + 1 and the id of the transaction it creates is max(stored transaction ids) + 1 *)
 Theorem C11_writable_single : forall (H : bytes -> bytes) pre f now b o b' lid tid,
-  i_l b = Initializing -> o_dry o = false -> w_single H pre f now b o = (b', Some (ROk lid tid false)) ->
+  coherent b -> i_l b = Initializing -> o_dry o = false -> w_single H pre f now b o = (b', Some (ROk lid tid false)) ->
   i_l b' = InUse /\
   (forall m, max_id l_id (s_logs (i_s b)) = Some m -> lid = m + 1) /\
   (forall t m, tid = Some t -> max_id t_id (s_txs (i_s b)) = Some m -> t = m + 1) /\
   (forall l, In l (s_logs (i_s b)) -> l_id l < lid) /\
   exists l, s_logs (i_s b') = s_logs (i_s b) ++ [l] /\ l_id l = lid.
 Proof.
-  intros H pre f now b o b' lid tid El Hd E.
-  destruct (single_after_import_fresh_log H pre f now b o b' lid tid El Hd E) as (A & B0 & C).
-  destruct (single_after_import_next_ids H pre f now b o b' lid tid El Hd E) as (D & D').
+  intros H pre f now b o b' lid tid Co El Hd E.
+  destruct (single_after_import_fresh_log H pre f now b o b' lid tid Co El Hd E) as (A & B0 & C).
+  destruct (single_after_import_next_ids H pre f now b o b' lid tid Co El Hd E) as (D & D').
   repeat split; assumption.
 Qed.
 Print Assumptions C11_writable_single.
@@ -173,11 +173,12 @@ Qed.
 Print Assumptions C11_refuted_updated_at.
 
 (* ATOMIC bulk, since the repair fixes/01-facade-begintx (the facade overrides BeginTX): a bulk of one element on the
-   still-initializing copy IS the facade write of that element: same tables, same hash column, the ledger in-use, and by
+   still-initializing copy IS the facade write of that element: same tables, same hash column, the ledger ROW in-use (only the
+   facade's cached state is left as it was: BeginTX does not touch it), and by
    C11_writable_single log id = max + 1, transaction id = max + 1 *)
 Theorem C11_writable_atomic : forall (H : bytes -> bytes) pre f now b o s' lid tid,
-  i_l b = Initializing -> o_dry o = false -> step f now (resync (i_s b)) o = SR s' (ROk lid tid false) ->
-  w_atomic H pre f now b [o] = (fst (w_single H pre f now b o), AResults [ARes (BRes (Some (ROk lid tid false)))]).
+  coherent b -> i_l b = Initializing -> o_dry o = false -> step f now (resync (i_s b)) o = SR s' (ROk lid tid false) ->
+  w_atomic H pre f now b [o] = (with_cache (fst (w_single H pre f now b o)) Initializing, AResults [ARes (BRes (Some (ROk lid tid false)))]).
 Proof. intros H pre f now b o s' lid tid. apply atomic_single_element. Qed.
 Print Assumptions C11_writable_atomic.
 
